@@ -57,6 +57,12 @@ def case_strategy():
             for name, f in c["tree"].items():
                 if name != "flatcfg.h" and not name.endswith((".h", ".hpp")):
                     f["items"] = [["include", "quote", os.path.relpath("flatcfg.h", os.path.dirname(name) or ".")], ["chain", [["if", ["cmp", "FLATCFG", "==", 1], [["code", 1]]]], [["code", 1]]]] + f["items"]
+        # the same with an include-once header: the mark must not outlive a translation unit
+        if draw(st.booleans()):
+            c["tree"]["oncecfg.h"] = {"items": [["once"], ["define", "ONCECFG", "1"], ["code", 1]], "style": [0]}
+            for name, f in c["tree"].items():
+                if name != "oncecfg.h" and not name.endswith((".h", ".hpp")):
+                    f["items"] = [["include", "quote", os.path.relpath("oncecfg.h", os.path.dirname(name) or ".")], ["chain", [["if", ["cmp", "ONCECFG", "==", 1], [["code", 1]]]], [["code", 1]]]] + f["items"]
         # CUDA files compiled several times with different architecture lists (passes selected per command)
         cus = sorted(n for n in c["tree"] if n.endswith(".cu"))
         if cus and draw(st.booleans()):
@@ -66,6 +72,14 @@ def case_strategy():
             for _ in range(draw(st.integers(2, 3))):
                 arch = draw(st.sampled_from([["--gpu-code=sm_80"], ["--gpu-code=sm_90"], ["--gpu-architecture=compute_75", "--gpu-code=sm_75"], ["-gencode", "arch=compute_89,code=sm_89"], []]))
                 c["platforms"][pn].append({"file": draw(st.sampled_from(cus)), "defines": [], "dirs": [], "forced": [], "extra_flags": arch})
+        # entries of one database are spelled differently: without `directory` (the root is the default),
+        # or relative to a build directory - what an entry means must not depend on its neighbours
+        if draw(st.booleans()):
+            for cmds in c["platforms"].values():
+                for cmd in cmds:
+                    how = draw(st.sampled_from([None, "absent", "absent", "bld", "bld/sub"]))
+                    if how is not None:
+                        cmd["dbdir"] = how
         c["perm_seed"] = draw(st.integers(0, 10**6))
         c["subset_mask"] = draw(st.integers(1, 15))
         return c
@@ -114,7 +128,7 @@ def check_case(case, res: Result, cli=False):
                 for i, cmd in enumerate(cmds):
                     dbp = os.path.join(top, f"single-{pname}-{i}.json")
                     with open(dbp, "w") as fh:
-                        json.dump([{"directory": root, "file": cmd["file"], "arguments": cbcase.argv_for(cmd)}], fh)
+                        json.dump([cbcase.db_entry(cmd, root)], fh)
                     one, _, _ = attrs(root, {pname: dbp})
                     single_by_cmd[(pname, i)] = one
                     for f, a in one.items():
